@@ -59,6 +59,9 @@ def scripts_for(pid, tier, seed, fx):
             rnd(rng.sample(plain, 3), 1, 50)
     elif pid == "C03":
         for _, p in KINDS:
+            f = p + "_plain_ret"
+            for s in seqs([1, 2, 3], 4):
+                add([f], [{"op": "call", "f": f, "k": k} for k in s], threads=1)
             f = p + "_plain"
             L = 6 if thorough else 5
             for s in seqs([1, 2, 3], L):
@@ -69,7 +72,7 @@ def scripts_for(pid, tier, seed, fx):
             rnd([f], 20 if thorough else 6, 120 if thorough else 60, threads=3, nkeys=20)
     elif pid == "C09":
         for _, p in KINDS:
-            for f in (p + "_res", p + "_res_lru2", p + "_res_lfu2", p + "_res_std", p + "_res_mem_lru"):
+            for f in (p + "_res", p + "_res_lru2", p + "_res_lfu2", p + "_res_std", p + "_res_mem_lru", p + "_res_ret"):
                 L = 5 if thorough else 4
                 for s in seqs([(1, True), (1, False), (2, True), (2, False)], L):
                     add([f], [{"op": "call", "f": f, "k": k, "ok": ok, "size": 70} for (k, ok) in s]
